@@ -60,18 +60,6 @@ pub fn run_plan<F>(rep: &mut Report, plan: &SweepPlan, budget: &Budget, f: F)
 where
     F: Fn(&str, &mut Acc) + Sync,
 {
-    for sp in &plan.spaces {
-        let (acc, done) = sweep_strings(sp, budget, &f);
-        let n = acc.evals;
-        rep.acc.merge(acc);
-        rep.scope(&sp.name, n, done);
-    }
-    for (sz, d) in &plan.gen {
-        let (acc, done) = sweep_gen(*sz, *d, budget, &f);
-        let n = acc.evals;
-        rep.acc.merge(acc);
-        rep.scope(&format!("gen({sz},{d})"), n, done);
-    }
     if plan.suite {
         match load_suite() {
             Err(e) => rep.acc.machinery_errors.push(format!("suite corpus: {e}")),
@@ -110,6 +98,21 @@ where
                 }
             }
         }
+    }
+    for (sz, d) in &plan.gen {
+        let (acc, done) = sweep_gen(*sz, *d, budget, &f);
+        let n = acc.evals;
+        rep.acc.merge(acc);
+        rep.scope(&format!("gen({sz},{d})"), n, done);
+    }
+    // smallest scopes first: when the wall cap is hit, it is the largest alphabets that stay open
+    let mut order: Vec<&StrSpace> = plan.spaces.iter().collect();
+    order.sort_by_key(|sp| sp.len());
+    for sp in order {
+        let (acc, done) = sweep_strings(sp, budget, &f);
+        let n = acc.evals;
+        rep.acc.merge(acc);
+        rep.scope(&sp.name, n, done);
     }
 }
 
@@ -677,6 +680,28 @@ pub fn c12_eval(s: &str, acc: &mut Acc) {
             base = Some(o);
         }
     }
+    // the printed form of the error as the loading interfaces hand it out: load_from_str (a
+    // ScanError) and YamlDecoder::decode (an error type of its own that wraps it)
+    if base.as_ref().map_or(false, |o: &Obs| o.err.is_some()) {
+        use saphyr::LoadableYamlNode;
+        if let Ok(Err(e)) = catch_unwind(AssertUnwindSafe(|| saphyr::Yaml::load_from_str(s))) {
+            let m = e.marker();
+            let want = format!("line {} column {}", m.line(), m.col() + 1);
+            let shown = e.to_string();
+            if !shown.ends_with(&want) {
+                acc.violation(viol("error-display api=load_from_str".into(), s, &format!("Display ends with {want:?}"), format!("Display = {shown:?}")));
+            }
+            let ascii_led = s.as_bytes().first().map_or(false, |b| *b != 0 && b.is_ascii()) && s.as_bytes().get(1).map_or(true, |b| *b != 0);
+            if ascii_led {
+                if let Ok(Err(de)) = catch_unwind(AssertUnwindSafe(|| saphyr::YamlDecoder::read(s.as_bytes()).decode().map(|_| ()))) {
+                    let dshown = de.to_string();
+                    if dshown != shown {
+                        acc.violation(viol("error-display api=decode".into(), s, &format!("the printed form of the wrapped scan error: {shown:?}"), format!("Display = {dshown:?}")));
+                    }
+                }
+            }
+        }
+    }
     if let Some(o) = base {
         // non-trivial: at least one marker beyond line 1 or a quoted/plain scalar with text
         let multi = o.evs.iter().any(|e| e.1.el > 1) || o.err.as_ref().map_or(false, |e| e.line > 1);
@@ -760,7 +785,42 @@ pub fn wall_cap(tier: Tier) -> u64 {
     std::env::var("VERIF_WALL_CAP").ok().and_then(|s| s.parse().ok()).unwrap_or(d)
 }
 
+/// `S-long` for the differential / position / grammar sweeps: every non-nesting generator of
+/// C01's list at sizes beyond 2^16 lines, columns and events. A violation is recorded by generator
+/// and size, not by its text.
+pub fn run_long<F>(rep: &mut Report, tier: Tier, budget: &Budget, f: F)
+where
+    F: Fn(&str, &mut Acc) + Sync,
+{
+    let sizes: &[usize] = if tier == Tier::Quick { &[300_000] } else { &[300_000, 1_200_000] };
+    let gens = crate::props::c01::long_gens();
+    let jobs: Vec<(usize, usize)> = (0..gens.len()).filter(|g| !gens[*g].1).flat_map(|g| sizes.iter().map(move |&n| (g, n))).collect();
+    let (acc, done) = par_blocks(jobs.len() as u64, budget, |b, acc| {
+        let (g, n) = jobs[b as usize];
+        let text = (gens[g].2)(n);
+        let mut a = Acc::default();
+        f(&text, &mut a);
+        for (_, (_, v)) in a.viols.iter_mut() {
+            v.case = json!({"kind": "long", "generator": gens[g].0, "size": n});
+        }
+        a.samples.clear();
+        a.class(h64(&("long", gens[g].0, n)));
+        acc.merge(a);
+    });
+    let n = acc.evals;
+    rep.acc.merge(acc);
+    rep.scope(&format!("long: {} generators x sizes {sizes:?} characters (more than 2^16 lines / columns / events)", jobs.len() / sizes.len()), n, done == jobs.len() as u64);
+}
+
 pub fn replay_with(case: &Value, f: impl Fn(&str, &mut Acc)) -> Result<Acc, String> {
+    if case["kind"] == "long" {
+        let gens = crate::props::c01::long_gens();
+        let name = case["generator"].as_str().ok_or("no generator")?;
+        let g = gens.iter().find(|g| g.0 == name).ok_or("unknown generator")?;
+        let mut acc = Acc::default();
+        f(&(g.2)(case["size"].as_u64().unwrap_or(100) as usize), &mut acc);
+        return Ok(acc);
+    }
     let s = case_text(case)?;
     let mut acc = Acc::default();
     f(&s, &mut acc);
